@@ -182,6 +182,14 @@ macro_rules! with_array {
                 let $a: [_; 13] = std::array::from_fn($mk);
                 $body
             }
+            150 => {
+                let $a: [_; 150] = std::array::from_fn($mk);
+                $body
+            }
+            1300 => {
+                let $a: [_; 1300] = std::array::from_fn($mk);
+                $body
+            }
             _ => panic!("array length {} is not instantiated", $n),
         }
     };
